@@ -26,7 +26,7 @@ use sozu_command_lib::channel::Channel;
 use sozu_command_lib::config::{ConfigBuilder, FileConfig};
 use sozu_command_lib::proto::command::{
     request::RequestType, response_content::ContentType, HardStop, QueryMaxConnectionsPerIp, Request,
-    ResponseStatus, ServerConfig, Status, WorkerRequest, WorkerResponse,
+    ResponseStatus, ServerConfig, SoftStop, Status, WorkerRequest, WorkerResponse,
 };
 use sozu_command_lib::scm_socket::{Listeners, ScmSocket};
 use sozu_command_lib::state::ConfigState;
@@ -62,6 +62,8 @@ struct W {
     idlen: HashMap<u64, usize>,
     unanswerable: Vec<u64>,
     partial_frames: bool,
+    /// seq of a SoftStop that was sent (the worker is expected to exit after answering it)
+    soft: Option<u64>,
 }
 
 fn make_id(seq: u64, len: usize) -> String {
@@ -158,6 +160,7 @@ impl W {
             idlen: HashMap::new(),
             unanswerable: vec![],
             partial_frames: false,
+            soft: None,
         })
     }
 
@@ -223,7 +226,7 @@ impl W {
             return "?".into();
         };
         let ok = m.status == ResponseStatus::Ok as i32
-            && matches!(m.content.as_ref().and_then(|c| c.content_type.as_ref()), Some(ContentType::MaxConnectionsPerIpLimit(_)));
+            && (self.soft == Some(seq) || matches!(m.content.as_ref().and_then(|c| c.content_type.as_ref()), Some(ContentType::MaxConnectionsPerIpLimit(_))));
         if !ok {
             oracle.push(("worker-response-corrupted".into(), format!("answer to request {seq} has status {} / unexpected content", m.status)));
         }
@@ -280,6 +283,47 @@ impl W {
     fn stop(&mut self, oracle: &mut Vec<(String, String)>) -> String {
         // liveness: a Status request sent now must be answered
         let mut verdict = "alive";
+        if self.soft.is_some() {
+            // graceful stop: every answer (the SoftStop's last) must have arrived, then the thread ends
+            let t0 = Instant::now();
+            while self.dead().is_none() && t0.elapsed() < Duration::from_secs(6) {
+                std::thread::sleep(Duration::from_millis(1));
+            }
+            // whatever is still in the socket now
+            let deadline = Instant::now() + Duration::from_millis(200);
+            while let Some(m) = self.next_frame(deadline, oracle) {
+                if m.status != ResponseStatus::Processing as i32 {
+                    let _ = self.account(&m, oracle);
+                }
+            }
+            match self.dead() {
+                Some(None) => {
+                    if !self.outstanding.is_empty() {
+                        oracle.push((
+                            "worker-softstop-drops-pending-responses".into(),
+                            format!("the worker stopped gracefully but {} answer(s) never arrived (first unanswered: request {}; the SoftStop itself is request {})",
+                                self.outstanding.len(), self.outstanding[0], self.soft.unwrap_or(0)),
+                        ));
+                    }
+                    if let Some(t) = self.thread.take() {
+                        let _ = t.join();
+                    }
+                    unsafe {
+                        libc::close(self.scm_fds.0);
+                        libc::close(self.scm_fds.1);
+                    }
+                    return format!("stopped left={}", self.outstanding.len());
+                }
+                Some(Some(msg)) => {
+                    oracle.push(("worker-dead".into(), format!("worker thread panicked: {msg}")));
+                    return format!("dead left={}", self.outstanding.len());
+                }
+                None => {
+                    oracle.push(("worker-softstop-never-completes".into(), "no session is open but the worker is still running 6 s after SoftStop".into()));
+                    // fall through to the liveness probes and the hard stop
+                }
+            }
+        }
         if let Some(state) = self.dead() {
             oracle.push(("worker-dead".into(), format!("worker thread ended: {state:?}")));
             verdict = "dead";
@@ -406,7 +450,18 @@ impl Area for ChanWorker {
         // arrives: the answer (and its failure notice) cannot fit and is dropped; the worker must
         // go back to polling instead of spinning on a WRITABLE interest with nothing to write
         let over_alone = vec!["wstart 1000 2000 1".to_string(), "wreq 0 1980".into(), "wpause 60".into(), "wstop".into()];
-        vec![demo, small, over, over_alone]
+        {
+            // graceful stop: idle worker, then with a backlog of unread answers behind a tiny SO_SNDBUF
+            let soft_idle = vec!["wstart 4096 16384 1".to_string(), "wreq 0 100".into(), "wread 1".into(), "wsoft 1".into(), "wread 100000".into(), "wstop".into()];
+            let mut soft_backlog = vec!["wstart 4096 16384 1".to_string()];
+            for i in 0..40u64 {
+                soft_backlog.push(format!("wreq {i} {}", 9000 + (i * 977) % 5000));
+            }
+            soft_backlog.push("wsoft 40".into());
+            soft_backlog.push("wread 100000".into());
+            soft_backlog.push("wstop".into());
+            vec![demo, small, over, over_alone, soft_idle, soft_backlog]
+        }
     }
     fn gen(&self, rng: &mut Rng, thorough: bool) -> Vec<String> {
         let (buf, max, snd) = if thorough && rng.chance(1, 25) { (1_000_000, 2_000_000, 1) } else { *rng.pick(CFGS) };
@@ -461,6 +516,10 @@ impl Area for ChanWorker {
             let w: Vec<&str> = o.split_whitespace().collect();
             w.first() == Some(&"wreq") && w.get(2).and_then(|l| l.parse::<usize>().ok()).is_some_and(|l| l + 32 > max)
         });
+        if ops.iter().any(|o| o.starts_with("wsoft ")) && impl_out.iter().any(|l| l.starts_with("stopped")) {
+            // the worker exited after a SoftStop with answers still unsent
+            return "worker-softstop-drops-pending-responses".into();
+        }
         if over && impl_out.iter().any(|l| l.starts_with("wedged")) {
             "worker-wedged-after-over-ceiling-response".into()
         } else {
@@ -516,6 +575,19 @@ impl Area for ChanWorker {
                         let got = g.read_finals(k, &mut run.oracle);
                         answers += got.len();
                         format!("got {}", if got.is_empty() { "-".into() } else { got.join(",") })
+                    }
+                    Err(_) => "bad-op".into(),
+                },
+                ("wsoft", Some(g)) if ws.len() == 2 => match ws[1].parse::<u64>() {
+                    Ok(seq) => {
+                        let id = format!("{seq}:soft");
+                        let req = WorkerRequest { id: id.clone(), content: Request { request_type: Some(RequestType::SoftStop(SoftStop {})) } };
+                        g.ids.insert(id, seq);
+                        g.idlen.insert(seq, 8);
+                        g.outstanding.push_back(seq);
+                        g.soft = Some(seq);
+                        let _ = g.send(&req);
+                        "sent".into()
                     }
                     Err(_) => "bad-op".into(),
                 },
